@@ -1514,7 +1514,15 @@ fn main() {
     let s_q = vec![v2(1, 0), v2(0, 1), v2(1, 1), v2(-1, 1), vec![1.0, 0.0, 0.0]];
     let b = Battery { queries: s_q.clone(), apis: s_apis.clone(), skip_failed_build: false };
     let s_depth = if thorough { 5 } else { 4 };
-    let alpha = alphabet_default(&KEYS[..2], false);
+    let mut alpha = alphabet_default(&KEYS[..2], false);
+    if thorough {
+        // depth 5 runs over 13 of the 15 ops; the two dropped ones stay in the depth-4 runs below
+        alpha.retain(|o| *o != Op::BatchDelete(KEYS[..2].to_vec()) && *o != Op::Store("b", vec![1.0, 0.0, 0.0]));
+        let full = alphabet_default(&KEYS[..2], false);
+        let s = explore(&Ctx { part: "S4", world: World::Default, battery: &b }, &full, 4);
+        report_part(&mut rep, "S_sequences_default_depth4_full_alphabet", &s, json!({"depth": 4, "alphabet": full.len(), "keys": 2, "wall_s": lap()}));
+        all.merge(s);
+    }
     let s = explore(&Ctx { part: "S", world: World::Default, battery: &b }, &alpha, s_depth);
     report_part(&mut rep, "S_sequences_default", &s, json!({"depth": s_depth, "alphabet": alpha.len(), "keys": 2, "queries": s_q.len(), "wall_s": lap()}));
     if s.builds_ok == 0 || s.weak_checks == 0 || s.states.len() < 50 {
